@@ -33,6 +33,8 @@ Vals == <<I(1), I(2), F(5), S(<<115>>), S(<<116>>), Unit, B(TRUE),
           Slice(Hide(WArr(IF_), ArrE(<<I(1), F(5)>>)), I(0), I(1), NoneV),      \* content int, fresh tag int
           Hide(WArr(IF_), ArrE(<<I(1)>>)),                                       \* literal tag int passed as [int|float]
           Bin("+", ArrE(<<I(1)>>), ArrE(<<F(5)>>)),                              \* tag int|float
+          Bin("+", Hide(WArr(WInt), ArrE(<<I(1)>>)), Hide(WArr(IF_), ArrE(<<I(2), F(5)>>))),   \* left tag narrower than right
+          Bin("+", Hide(WArr(IF_), ArrE(<<I(2), F(5)>>)), Hide(WArr(WInt), ArrE(<<I(1)>>))),
           RepE(I(7), I(0)),                                                       \* empty, tag int
           TupE(<<I(1), I(2)>>), TupE(<<I(1), I(2), I(3)>>), TupE(<<I(1), S(<<115>>)>>), TupE(<<I(1), F(5)>>),
           TupE(<<ArrE(<<I(1)>>), I(2)>>), TupE(<<ArrE(<<>>), I(2)>>),
